@@ -105,3 +105,23 @@ func lemmaIndexValueRoundTrip(r *indexRecord, buf []byte, key string) {
 	vAssert(r2.Offset == off, "same child position")
 	vAssert(r2.LastKey == key, "same key")
 }
+
+// lemmaRefTwoHashRoundTrip (C01, layer 3, ref records with a value and a peeled value): as lemmaRefValueRoundTrip, for
+// both hashes.
+func lemmaRefTwoHashRoundTrip(r *RefRecord, buf []byte, hashSize int, k int) {
+	vAssume(r != nil && r.UpdateIndex < 1<<62 && len(r.Value) == hashSize && len(r.TargetValue) == hashSize && r.Target == "")
+	vAssume((hashSize == 20 || hashSize == 32) && 0 <= k && k < hashSize)
+	n, fits := r.encode(buf, hashSize)
+	if !fits {
+		return
+	}
+	want1, want2 := r.Value[k], r.TargetValue[k]
+	idx := r.UpdateIndex
+	var r2 RefRecord
+	m, ok := r2.decode(buf[:n], r.RefName, r.valType(), hashSize)
+	vAssert(ok, "the decoder accepts what the encoder wrote")
+	vAssert(m == n, "it consumes exactly the bytes written")
+	vAssert(r2.UpdateIndex == idx, "same update index")
+	vAssert(len(r2.Value) == hashSize && r2.Value[k] == want1, "same hash, byte by byte")
+	vAssert(len(r2.TargetValue) == hashSize && r2.TargetValue[k] == want2, "same peeled hash, byte by byte")
+}
